@@ -24,7 +24,7 @@ func init() {
 	register(&Check{
 		ID:    "C04",
 		Level: "model_checking",
-		Rule: "product: amounts {1,2,2^64-1,2^64,2^64+1,2^128,2^255,2^256-1 on a fresh supply} x 5 mint recipients (32 distinct bytes, leading-zero address, non-zero high bytes) x 2 (domain, burn token) x local denom stored as uusdc / uUSDC / a denom the factory does not mint x caller zero/submitter, " +
+		Rule: "product: amounts {0 (which the token factory refuses to mint),1,2,2^64-1,2^64,2^64+1,2^128,2^255,2^256-1 on a fresh supply} x 5 mint recipients (32 distinct bytes, leading-zero address, non-zero high bytes) x 2 (domain, burn token) x local denom stored as uusdc / uUSDC / a denom the factory does not mint x caller zero/submitter, " +
 			"each judged on the recorded Mint request, bank balances/supply and both events; BFS (depth 4 quick / 6 thorough, sharded by first action) over 3 burn receives, plain and failing receives and one transaction of every other type " +
 			"with 'supply minted == sum over distinct accepted burn messages' in every state; distinct_nontrivial = distinct (case) in the product + distinct (minted-set, transaction kind, outcome) in the BFS",
 		Assumptions: []string{"histories whose cumulative mint would overflow the bank's 256-bit supply are outside the alphabet"},
@@ -76,7 +76,7 @@ func c04Scenario(local string, fresh bool) Scenario {
 func c04Product(r *Run, local string, src uint32) {
 	signers := Keys[0:2]
 	m1 := func(n uint) *big.Int { return new(big.Int).Sub(bigPow2(n), big.NewInt(1)) }
-	amounts := []*big.Int{big.NewInt(1), big.NewInt(2), m1(64), bigPow2(64), new(big.Int).Add(bigPow2(64), big.NewInt(1)), bigPow2(128), bigPow2(255)}
+	amounts := []*big.Int{big.NewInt(0), big.NewInt(1), big.NewInt(2), m1(64), bigPow2(64), new(big.Int).Add(bigPow2(64), big.NewInt(1)), bigPow2(128), bigPow2(255)}
 	recips := [][]byte{distinct32(0x10), distinct32(0x83), pad32(UserA.Addr),
 		pad32(append([]byte{0, 0}, bytes.Repeat([]byte{0x5A}, 18)...)), // 20-byte address that itself starts with zero bytes
 		append(bytes.Repeat([]byte{0xEE}, 12), UserB.Addr...)}          // non-zero high 12 bytes
